@@ -416,3 +416,43 @@ V('c19-twin-empty-len', 'C19', 'C19.TOTAL', NM,
   "        if not test_service_name:\n            raise BadTypeInNameException(\"Service name (%s) must not be empty\" % service_name)",
   "        if len(test_service_name) == 0:\n            raise BadTypeInNameException(\"Service name (%s) must not be empty\" % service_name)", expect='silent')
 V('c19-twin-limit-ge', 'C19', 'C19.CONST', NM, "        if length > 63:", "        if length >= 64:", expect='silent')
+
+# ---------------------------------------------------------------- C10
+V('c10-early-return-no-rearm', 'C10', 'C10.REARM', BR,
+  "        if ready_types:\n            self.async_send_ready_queries(False, now_millis, ready_types)\n",
+  "        if not ready_types and not self._query_heap:\n            return\n        if ready_types:\n            self.async_send_ready_queries(False, now_millis, ready_types)\n", names=['_process_ready_types'])
+V('c10-startup-forgets-rearm', 'C10', 'C10.REARM', BR,
+  "        self._next_run = self._loop.call_later(self._startup_queries_sent**2, self._process_startup_queries)",
+  "        if self._types:\n            self._next_run = self._loop.call_later(self._startup_queries_sent**2, self._process_startup_queries)", names=['_process_startup_queries'])
+V('c10-raise-before-rearm', 'C10', 'C10.REARM', BR,
+  "        now_millis = current_time_millis()\n        # Refresh records that are about to expire",
+  "        now_millis = current_time_millis()\n        if self._next_run is None:\n            raise RuntimeError('scheduler not started')\n        # Refresh records that are about to expire", names=['RuntimeError'])
+V('c10-stale-heap-top', 'C10', 'C10.HEAPMIN', BR,
+  "        next_when_millis = now_millis + self._min_time_between_queries_millis\n        self._next_run = self._loop.call_at(millis_to_seconds(next_when_millis), self._process_ready_types)",
+  "        next_when_millis = now_millis + self._min_time_between_queries_millis\n        if self._query_heap and self._query_heap[0].when_millis > next_when_millis:\n            next_when_millis = self._query_heap[0].when_millis\n        self._next_run = self._loop.call_at(millis_to_seconds(next_when_millis), self._process_ready_types)", names=['_schedule_ptr_query'])
+V('c10-poll-double-delay', 'C10', 'C10.HEAPMIN', BR,
+  "        next_when_millis = now_millis + self._min_time_between_queries_millis\n        self._next_run = self._loop.call_at(millis_to_seconds(next_when_millis), self._process_ready_types)",
+  "        next_when_millis = now_millis + self._min_time_between_queries_millis * 6\n        self._next_run = self._loop.call_at(millis_to_seconds(next_when_millis), self._process_ready_types)")
+V('c10-alias-spelling-key', 'C10', 'C10.ALIASKEY', BR,
+  "        current = self._next_scheduled_for_alias.get(pointer.alias_key)", "        current = self._next_scheduled_for_alias.get(pointer.alias)")
+V('c10-alias-spelling-ctor', 'C10', 'C10.ALIASKEY', BR,
+  "            pointer.alias_key, pointer.name, ttl, expire_time_millis, refresh_time_millis", "            pointer.alias, pointer.name, ttl, expire_time_millis, refresh_time_millis")
+V('c10-cancel-keeps-map', 'C10', 'C10.PAIR', BR,
+  "        scheduled = self._next_scheduled_for_alias.pop(pointer.alias_key, None)", "        scheduled = self._next_scheduled_for_alias.get(pointer.alias_key, None)")
+V('c10-push-without-map', 'C10', 'C10.PAIR', BR,
+  "        self._next_scheduled_for_alias[scheduled_query.alias] = scheduled_query\n        heappush(self._query_heap, scheduled_query)", "        heappush(self._query_heap, scheduled_query)")
+V('c10-supersede-not-cancelled', 'C10', 'C10.PAIR', BR,
+  "            current.cancelled = True\n            del self._next_scheduled_for_alias[pointer.alias_key]", "            del self._next_scheduled_for_alias[pointer.alias_key]")
+V('c10-refresh-80', 'C10', 'C10.CONST', 'const.py', "_EXPIRE_REFRESH_TIME_PERCENT = 75", "_EXPIRE_REFRESH_TIME_PERCENT = 80")
+V('c10-rescue-20', 'C10', 'C10.CONST', BR, "RESCUE_RECORD_RETRY_TTL_PERCENTAGE = 0.1", "RESCUE_RECORD_RETRY_TTL_PERCENTAGE = 0.2")
+V('c10-backoff-linear', 'C10', 'C10.CONST', BR,
+  "self._loop.call_later(self._startup_queries_sent**2, self._process_startup_queries)", "self._loop.call_later(self._startup_queries_sent * 2, self._process_startup_queries)")
+V('c10-startup-three', 'C10', 'C10.CONST', BR, "STARTUP_QUERIES = 4", "STARTUP_QUERIES = 3")
+V('c10-rescue-past-expiry', 'C10', 'C10.CONST', BR,
+  "        if next_query_time >= query.expire_time_millis:", "        if next_query_time >= query.expire_time_millis + ttl_millis:")
+# twins
+V('c10-twin-poll-inline', 'C10', 'C10.HEAPMIN', BR,
+  "        next_when_millis = now_millis + self._min_time_between_queries_millis\n        self._next_run = self._loop.call_at(millis_to_seconds(next_when_millis), self._process_ready_types)",
+  "        self._next_run = self._loop.call_at(\n            millis_to_seconds(self._min_time_between_queries_millis + now_millis), self._process_ready_types\n        )", expect='silent')
+V('c10-twin-backoff-mult', 'C10', 'C10.CONST', BR,
+  "self._loop.call_later(self._startup_queries_sent**2, self._process_startup_queries)", "self._loop.call_later(self._startup_queries_sent * self._startup_queries_sent, self._process_startup_queries)", expect='silent')
